@@ -78,7 +78,7 @@ RESULTS_AT_SAVE = {
     "InElastic": ["Svm", "ux"],
     "HyperElastic": ["W", "ux"],
     "WeakForms": ["u"],
-    "Beam": ["ux", "uy"],
+    "Beam": ["ux", "uy", "fx", "fy"],  # the internal forces are read from the assembled operators of the restored mesh
 }
 
 
@@ -112,7 +112,7 @@ class HistWorld(World):
             from .fresh_beam import BeamFresh
 
             spec = BeamFresh.gen_beam_config(rng)
-            return {"type": "Beam", "dim": spec["dim"], "meshes": ["__frame__"], "kind": "beam", "params": {}, "beam": spec, "folder0": ["", "A"][int(rng.integers(2))],
+            return {"type": "Beam", "dim": spec["dim"], "meshes": ["__frame__"], "kind": "beam", "params": {}, "beam": spec, "beam_copy": bool(rng.random() < 0.5), "folder0": ["", "A"][int(rng.integers(2))],
                     "nops": int(rng.integers(10, 31 if tier == "quick" else 46)), "faults": bool(faults)}
         dim = 3 if (st in ("Elastic", "Thermal") and rng.random() < 0.15) else 2
         maxNn = 40 if tier == "quick" else 80
@@ -181,6 +181,12 @@ class HistWorld(World):
     def _build(self, i):
         """A brand-new mesh object number i of the configuration (with its unused nodes, if the configuration has any)."""
         raw = self.raws[i]
+        if self.type == "Beam":
+            # a Beam simulation works on the mesh its constructor derived from the SEG mesh: copies of that one
+            m = self._frame_mesh.copy()
+            if i:
+                m.coord = raw.coord.copy()
+            return m
         k = (self.cfg.get("orphans") or [0] * len(self.raws))[i]
         if not k:
             return meshlib.build(raw)
@@ -196,8 +202,21 @@ class HistWorld(World):
             self.sim.folder = folder
         self.model = self.sim.model
         self.meshes = [self.sim.mesh]
+        self._frame_mesh = self.sim.mesh.copy()
         self.mesh_i = 0
         self.raws = [meshlib.raw_of(self.sim.mesh, "frame")]
+        if self.cfg.get("beam_copy"):
+            # a second mesh of the same frame with the interior nodes of every member pulled towards the joint: same
+            # topology, same number of dofs, same end points -- other element lengths, hence other operators
+            raw = self.raws[0]
+            X = raw.coord.copy()
+            P = np.zeros((len(self.pts), 3))
+            for k, pnt in enumerate(self.pts):
+                P[k, : len(pnt)] = pnt
+            keep = (np.linalg.norm(X[:, None, :] - P[None, :, :], axis=2) < 1e-9).any(axis=1)
+            X[~keep] = P[1] + 0.85 * (X[~keep] - P[1])
+            self.raws.append(meshlib.RawMesh("frame_copy", raw.groups, X, raw.tags))
+            self.meshes.append(self._build(1))
 
     def _make_model(self, mesh):
         if self.kind.startswith("wf_"):
@@ -344,6 +363,23 @@ class HistWorld(World):
 
     # ------------------------------------------------------------------ generation
     def gen_op(self, rng, frng):
+        q = getattr(self, "_queue", None)
+        if q:
+            op = q.pop(0)
+            if op["op"] == "result_iter":
+                others = [i for i, sn in enumerate(self.snaps) if sn["mesh_i"] != self.mesh_i]
+                if not others:
+                    self._queue = []
+                    op = None
+                else:
+                    op.update(i=others[int(rng.integers(len(others)))], idx="int", name=["fx", "fy"][int(rng.integers(2))], _mut=False)
+            if op is not None:
+                return op
+        if self.type == "Beam" and len(self.meshes) > 1 and self.snaps and rng.random() < 0.12:
+            # the frame is solved on its other mesh (operators assembled there), then a result that is read from the
+            # operators is asked for an iteration saved on the mesh that was left
+            self._queue = [{"op": "solve"}, {"op": "result_iter"}]
+            return {"op": "setmesh", "mesh": 1 - self.mesh_i}
         w = {"load": 3, "solve": 4, "save_iter": 4, "folder": 1.5, "get_results": 2, "set_iter": 2.5, "result_iter": 2,
              "setmesh": 1.0, "algo": 1.0, "save": 1.2, "load_simu": 1.0, "mesh_io": 0.5, "scribble": 1.0}
         n = len(self.snaps)
@@ -351,8 +387,10 @@ class HistWorld(World):
             w["get_results"] = w["set_iter"] = w["result_iter"] = 0
         if not self.saved:
             w["load_simu"] = 0
-        if len(self.meshes) < 2 or self.type in ("WeakForms", "Beam"):
+        if len(self.meshes) < 2 or self.type == "WeakForms":
             w["setmesh"] = 0
+        elif self.type == "Beam":
+            w["setmesh"] = 2.0
         if len(simlib.sim_algos(self.type)) < 2:
             w["algo"] = 0
         if self.type == "InElastic" and self.ctx.avoids("inelastic-save-unpicklable"):
@@ -378,6 +416,13 @@ class HistWorld(World):
             op["idx"] = ["int", "int", "numpy", "negative"][int(rng.integers(4))]
             rs = RESULTS_AT_SAVE[self.type]
             op["name"] = rs[int(rng.integers(len(rs)))]
+            if self.type == "Beam" and len(self.meshes) > 1:
+                # results read from the assembled operators, for an iteration saved on the other mesh of the frame
+                others = [i for i, sn in enumerate(self.snaps) if sn["mesh_i"] != self.mesh_i]
+                if others and rng.random() < 0.7:
+                    op["i"] = others[int(rng.integers(len(others)))]
+                if rng.random() < 0.6:
+                    op["name"] = ["fx", "fy"][int(rng.integers(2))]
         elif name == "setmesh":
             op["mesh"] = int(rng.integers(len(self.meshes)))
         elif name == "algo":
@@ -478,7 +523,7 @@ class HistWorld(World):
             return self._with_disk_fault(fault, lambda: self._act_result_iter(op["i"], op["name"]), lambda: self._ver_result_iter(op["i"], op["name"]))
 
         if name == "setmesh":
-            if op["mesh"] >= len(self.meshes) or self.type in ("WeakForms", "Beam"):
+            if op["mesh"] >= len(self.meshes) or self.type == "WeakForms" or (self.type == "Beam" and len(self.raws) < 2):
                 return "skip"
             with ctx.sut():
                 # a distinct object per assignment: the history must keep them apart
@@ -713,6 +758,9 @@ class HistWorld(World):
             g, r = np.asarray(got, dtype=float), np.asarray(ref, dtype=float)
             err = np.max(np.abs(g - r)) if g.shape == r.shape and g.size else np.inf
             scale = np.max(np.abs(r)) if r.size else 0.0
+            if name in ("fx", "fy"):
+                # nodal forces are K u: on an unloaded direction they are round-off of the forces of the other one
+                scale = max([scale] + [float(np.max(np.abs(sn["results"][k]))) for sn in self.snaps for k in ("fx", "fy") if k in sn["results"] and np.size(sn["results"][k])])
             if not err <= 1e-12 * max(scale, 1e-300):
                 raise Violation("result-for-iteration-differs", f"Result('{name}', iter={i}) differs from the value obtained when the iteration was saved (max|diff|={err:.3e}, scale {scale:.3e})")
         self.ctx.checked()
